@@ -145,7 +145,8 @@ Definition top_spec (F : list gspec) : gspec :=
   match F with
   | g :: _ => g
   | [] => {| gs_graph := {| g_nodes := []; g_mode := Pregel; g_eager := false; g_max := 0 |};
-             gs_state := false; gs_st := []; gs_rerun := []; gs_before := []; gs_after := [] |}
+             gs_state := false; gs_st := []; gs_rerun := []; gs_before := []; gs_after := [];
+             gs_leaf := []; gs_inkey := [] |}
   end.
 Definition top_graph (F : list gspec) : graph := gs_graph (top_spec F).
 
@@ -161,6 +162,33 @@ Definition ref_ok (c : icase) : bool :=
   segs_ok (top_spec F) cos (call_logs e) [ic_ref c].
 
 Definition icase_bad (c : icase) : bool := negb (run_ok c && ref_ok c).
+
+(* ---------- the observables property C05 itself constrains ----------
+   Whole-run view (independent of where the run was interrupted): how the run ends (class, output), the
+   multiset of lambda executions (node, input, aborted) of all calls and all nesting levels, and the
+   multiset of state pre-handler runs of all calls — against the model driven until it completes,
+   plus the reference run. A run that has not completed after the maximal number of resumes (on either
+   side) is not compared. *)
+Definition is_intr (n : N) : bool := N.eqb n cInterrupt.
+
+Definition whole_ok (c : icase) : bool :=
+  let top := top_spec (ic_forest c) in
+  let '(cos, e) := run_drive (ic_forest c) (negb (ic_noid c)) (ic_mods c) (ic_input c) (env0 (ic_scheds c)) in
+  match rev cos, rev (ic_segs c) with
+  | co :: _, o :: _ =>
+    let mcl := class_of (gs_graph top) (co_out co) in
+    if is_intr mcl || is_intr (os_class o) then true
+    else
+      N.eqb mcl (os_class o)
+      && match co_out co with ODone v => veq v (os_out o) | _ => true end
+      && (negb (forallb os_execs_cmp (ic_segs c))
+          || (mset_eqb (execs_of (e_log e)) (flat_map os_execs (ic_segs c))
+              && list_eqb N.eqb (nsort (flat_map (fun co => pres_of top (co_log co)) cos ++ pres_in (e_log e)))
+                                (nsort (flat_map os_pres (ic_segs c)))))
+  | _, _ => false
+  end.
+
+Definition icase_bad_c05 (c : icase) : bool := negb (whole_ok c && ref_ok c).
 
 (* debugging aid for replays: what the model computes *)
 Definition model_segs (c : icase) :=
